@@ -69,6 +69,16 @@ def wire_lines(rng, thorough):
                     L.append("wenc %d %s %d %d %d" % (oid, c, s, n, m))
         for _ in range(3000 if thorough else 400):
             L.append("wenc %d %s %d %d %d" % (oid, c, rng.randrange(0, 8), rng.randrange(0, 1 << 20), rng.randrange(2)))
+        # the second time: the message already carries the option with a wider / narrower / equal value (a re-used request, the
+        # next block of a transfer, fitSZX's rewrite) when the block value is set
+        prevs = [0, 6, 14, 255, 256, 65535, 65536, 0xFFFFFF, 0x0E000E]
+        for s in (0, 6, 7):
+            for n in (0, 1, 15, 16, 4095, 4096, 65535, (1 << 20) - 1):
+                for m in (0, 1):
+                    for pv in prevs:
+                        L.append("wenc2 %d %s %d %d %d %d" % (oid, c, s, n, m, pv))
+        for _ in range(1500 if thorough else 200):
+            L.append("wenc2 %d %s %d %d %d %d" % (oid, c, rng.randrange(0, 8), rng.randrange(0, 1 << 20), rng.randrange(2), rng.randrange(0, 1 << 24)))
         # a peer's value bytes: every value of at most one byte, zero-padded forms, random two and three byte values
         L.append("wdec %d %s -" % (oid, c))
         for b in range(256):
@@ -222,6 +232,10 @@ def glue_expect(ctx, art, line):
         # datagram transports: exponents 0..6; 7 is BERT (reliable transports only), above 7 is outside the codec's domain
         top = 7 if f[1] == "tcp" else 6
         return "ok code=68 delivered=%d" % body if szx <= top else "err"
+    if f[0] == "cfgszxw":
+        # the one-way entrance (Conn.WriteMessage -> BlockWise.WriteMessage): same domain, the body arrives without a response
+        szx, body = int(f[2]), int(f[3])
+        return "ok delivered=%d" % body if szx <= 6 else "err"
     if f[0] == "srvszx":
         # a server configured with an exponent its transport cannot use refuses to serve
         top = 7 if f[1] == "tcp" else 6
@@ -244,6 +258,9 @@ def glue_lines(ctx):
     for t in ("udp", "dtls"):
         for szx in ([2, 6, 7, 8, 9, 15, 200] if ctx.tier == "quick" else [0, 1, 2, 3, 4, 5, 6, 7, 8, 9, 15, 16, 127, 200, 255]):
             L.append("cfgszx %s %d 3000" % (t, szx))
+        # ... and through the one-way write of the same connection (seeded C19-U: the only refusal there was the codec's own)
+        for szx in ([2, 6, 8, 9, 16, 200] if ctx.tier == "quick" else [0, 1, 2, 3, 4, 5, 6, 8, 9, 15, 16, 24, 127, 200, 255]):
+            L.append("cfgszxw %s %d 3000" % (t, szx))
     # servers of all three transports configured (options.WithBlockwise) with every kind of exponent: Serve refuses what the
     # transport cannot use.  (A stream CLIENT with such an exponent is judged towards a peer that announces block-wise
     # transfer - `szxpeer`, configured through the same option -: library to library no block-wise transfer takes place on
@@ -268,9 +285,29 @@ def glue(ctx, art):
     if not exe or not art.get("driver"):
         return
     lines = glue_lines(ctx)
+    nb = len(ctx.broken)
     out = common.run_test_harness(ctx, exe, "TestC19Glue", lines, timeout=600, tag="glue")
     if out is None or len(out) != len(lines):
-        return
+        # the harness process died (a panic in a goroutine of the library cannot be recovered by the harness): run the lines one
+        # by one; a line whose own process dies is a concrete failing input
+        log = getattr(ctx, "harness_log", "") or ""
+        out = []
+        crashed = 0
+        for l in lines:
+            before = len(ctx.broken)
+            o = common.run_test_harness(ctx, exe, "TestC19Glue", [l], timeout=120, tag="glue1")
+            if o and len(o) == 1:
+                out.append(o[0])
+                continue
+            del ctx.broken[before:]
+            crashed += 1
+            tail = [x for x in (getattr(ctx, "harness_log", "") or "").splitlines() if x.startswith("panic:")][:1]
+            out.append("crash " + (tail[0] if tail else ""))
+        if crashed:
+            del ctx.broken[nb:]          # replaced by the concrete lines below
+        elif not log:
+            return
+    nb = None
     for l, o in zip(lines, out):
         ctx.cov["evaluations"] += 1
         ctx.count("glue-" + l.split()[0])
@@ -278,6 +315,10 @@ def glue(ctx, art):
             ctx.notes.append("rig problem (not a violation): %s -> %s" % (l, o))
             continue
         want = glue_expect(ctx, art, l)
+        if o.startswith("crash "):
+            ctx.violations.append(common.Violation("no-crash", "C19:glue:" + " ".join(l.split()[:2]), "%s: the process died: %s (expected `%s`)" % (l, o, want),
+                                                   {"input": [l], "observed": o, "expected": want, "glue": True}))
+            continue
         if want is not None and o != want:
             clause = "refused-outside-domain" if l.startswith(("cfgszx", "szxpeer", "srvszx")) else "bert-bounded-by-max-message-size"
             ctx.violations.append(common.Violation(clause, "C19:glue:" + " ".join(l.split()[:2]), "%s: observed `%s`, expected `%s`" % (l, o, want),
@@ -316,6 +357,10 @@ def replay(ctx, rep):
         with common.Lock():
             exe = common.build_test(ctx, "c19glue")
         out = common.run_test_harness(ctx, exe, "TestC19Glue", lines, tag="replay")
+        if not out or len(out) != len(lines):
+            print("%s: the harness process died (a panic in a goroutine of the library)" % " ; ".join(lines))
+            print("VIOLATION property=C19 replay=(replayed) still reproduces")
+            return 1
         bad = 0
         for l, o in zip(lines, out):
             want = glue_expect(ctx, art, l)
